@@ -54,7 +54,7 @@ _mos_modules = dict()  # `Dict[(MosType, MosVth), ExternalModule]`, if that work
 for tp, tpname in _mos_typenames.items():
     for vt, vtname in _mos_vtnames.items():
 
-        modname = f"{tp}mos{vtname}"
+        modname = f"{tpname}mos{vtname}"
         mod = h.ExternalModule(
             domain="asap7",
             name=modname,
